@@ -62,6 +62,10 @@ func searches(prop, tier string) []raftmc.Search {
 		nf := base
 		nf.PreVote = false
 		add(nf, "leader", d(7, 9))
+		// (b2) a vote granted as the only change of the hard state (no term or commit change), then a crash
+		sv := raftmc.Config{Name: "vote-only-change", N: 3, CheckQuorum: true, Storage: "mem"}
+		sv.MaxCrash = 1
+		add(sv, "stepped-down-novote", d(8, 10))
 		// (c) membership: spare voter / learner, conf changes
 		for _, sp := range []string{"voter", "learner"} {
 			c := raftmc.Config{Name: "conf-" + sp, N: 3, Spare: sp, PreVote: true, CheckQuorum: true, Storage: "mem", UseTimeout: true, UseTick: true}
